@@ -46,6 +46,9 @@ def classify_diff(st: dict[str, Any]) -> str:
     return "daemon-differs:missing=" + ",".join(_codes(miss)) + ":extra=" + ",".join(_codes(extra))
 
 
+# definition kinds for the exploration slice: enums (stale narrowing after a member is added) and protocols (mismatch notes
+# printed without `self` by the daemon) are listed defect classes of the unchanged tree and stay in the core histories
+SAFE_KINDS = [k for k in histgen.DEF_KINDS if k not in ("enum", "protocol", "gnamedtuple", "gtypeddict")]
 SAFE_OPS = ["sig", "body", "body_err", "extra", "add_def", "add_use", "equal_size", "touch", "base_change", "drop_uses"]
 
 
@@ -61,7 +64,8 @@ def gen(ctx: common.Ctx, n_hist: int, steps: tuple[int, int], explore: bool = Fa
         stream = "safe" if explore else ("content" if k % 3 else "structure")
         h = histgen.history((*tag, k), n_steps=n, n_modules=r.randint(3, 7), cycles=not explore,
                             ops=SAFE_OPS if explore else (histgen.CONTENT_OPS if stream == "content" else None),
-                            packages=not explore, import_forms=["import", "from", "fromas"] if explore else None)
+                            packages=not explore, import_forms=["import", "from", "fromas"] if explore else None,
+                            kinds=SAFE_KINDS if explore else None)
         modes = ["check"] + [r.choice(["check", "recheck", "recheck"] + (["recheck-explicit"] if follow != "normal" else []))
                              for _ in range(n - 1)]
         flags = [] if follow == "normal" else [f"--follow-imports={follow}"]
